@@ -29,6 +29,8 @@ class SimTransport(object):
         self.recv_log = []
         self.avail_log = []                # (tick, nbytes) when bytes became available
         self.writes = []
+        self.fail_writes = ()
+        self.failed_writes = []
         self._absorb()
 
     def _absorb(self):
@@ -39,6 +41,12 @@ class SimTransport(object):
 
     # -- socket API used by lomond
     def sendall(self, data):
+        # fail_writes: indices (0 = the upgrade request) of the writes the peer no longer takes; the socket stays readable
+        k = len(self.writes) + len(self.failed_writes)
+        if k in self.fail_writes:
+            self.failed_writes.append((self.clock.ticks, bytes(data)))
+            import socket as _s
+            raise _s.error(32, "Broken pipe")
         self.writes.append((self.clock.ticks, bytes(data)))
 
     def recv_into(self, buf, nbytes=0):
@@ -138,6 +146,7 @@ def run_sim(sc):
     clock = simnet.Clock()
     tr = (TlsTransport if sc["tls"] else SimTransport)(sc["tls"], sc["arrivals"], clock)
     limit = sc["arrivals"][-1][0] + 3 * 60 * 1024
+    tr.fail_writes = tuple(sc.get("fail_writes") or ())
 
     class BusyLock(object):
         """the session's write lock as seen while another thread of the application is sending: a blocking acquire gets the
@@ -300,6 +309,13 @@ def gen(rnd, tls, held=False):
     extra = dict(selector=rnd.choice(["poll", "select"]), plain_url=bool(tls) and rnd.random() < 0.25)
     if held:
         return dict(tls=tls, arrivals=arrivals, _expected=expected, busy_lock=False, held_lock=[arrivals[1][0] - 1, t + 30 * 1024], **extra)
+    if rnd.random() < 0.15:
+        # the peer takes no more of what the client writes from some Pong on (the write fails; the read side is unaffected):
+        # an unwritable Pong is dropped, everything that has arrived is delivered all the same
+        npings = sum(1 for _, e in expected if e[0] == 8)
+        if npings:
+            first = rnd.randrange(1, npings + 1)
+            extra["fail_writes"] = list(range(first, npings + 2))
     return dict(tls=tls, arrivals=arrivals, _expected=expected, busy_lock=(rnd.random() < 0.3), **extra)
 
 
@@ -314,7 +330,7 @@ def oracle(sc, events, tr):
         if t != ta:
             out.append("a message whose last byte was available at tick %d was delivered at tick %d (%.1f s later; transport %s): the loop waited for a poll timeout or more traffic" % (ta, t, (t - ta) / 1024.0, ["TCP", "TLS", "TLS with read-ahead"][sc["tls"]]))
             break
-    pongs = [(t, ref6455.decode_client_frame(w)) for t, w in tr.writes[1:]]
+    pongs = sorted([(t, ref6455.decode_client_frame(w)) for t, w in tr.writes[1:]] + [(t, ref6455.decode_client_frame(w)) for t, w in tr.failed_writes], key=lambda x: x[0])
     pings = [(ta, e) for ta, e in exp if e[0] == 8]
     if len(pongs) != len(pings):
         out.append("%d automatic pongs for %d pings" % (len(pongs), len(pings)))
